@@ -297,6 +297,17 @@ def _judge(ctx, case, r, seen, logical):
     if r.errors:
         raise CheckFailure(f'traceback written to wsgi.errors although the status is {r.status!r}: {r.errors[-600:]}\n{what}')
     ctx.count(f'status_{r.code}')
+    if case.get('expect_parts') and r.code == 200:
+        # a well-formed form of known shape: every part arrives (nothing swallowed, nothing delivered empty)
+        got = sum(len(v) for acc, v in seen if acc in ('files', 'forms') for v in v.values())
+        if got != case['expect_parts']:
+            raise CheckFailure(f'well-formed form with {case["expect_parts"]} parts read with buffer {case["B"]}: {got} values delivered')
+        for acc, d in seen:
+            if acc == 'files':
+                for k, items in d.items():
+                    for it in items:
+                        if isinstance(it, tuple) and not it[2].endswith(b'DATA' + k[1:].encode()):
+                            raise CheckFailure(f'well-formed form read with buffer {case["B"]}: upload {k!r} delivered as {it[2][:40]!r}')
     # ---- completeness of delivered multipart fields
     if r.code == 200:
         bnd = boundary_of(case['ctype'])
@@ -385,6 +396,17 @@ def run(ctx):
             ctx.guarded(check_case, {'family': 'multipart', 'body': body, 'ctype': 'multipart/form-data; boundary=bnd', 'boundary': 'bnd', 'mutations': [],
                                      'framing': 'chunked', 'fr_a': 0, 'fr_b': 1, 'chunks': [k] * (len(body) // k + 1), 'B': 102400, 'access': ['POST'], 'pattern': [],
                                      'method': 'POST'})
+        # parts whose data BEGINS with each proper suffix of the delimiter (what is left of a delimiter that straddles two read buffers), under every buffer size
+        tok = b'\r\n--bnd'
+        sparts = [{'name': 'p%d' % k, 'filename': 'f%d' % k, 'value': tok[k:] + b'DATA%d' % k} for k in range(1, len(tok))] + [{'name': 'last', 'value': b'end'}]
+        sbody, _ = encode_multipart('bnd', sparts, b'', b'\r\n')
+        for B in range(8, 130):
+            ctx.guarded(check_case, {'family': 'multipart', 'body': sbody, 'ctype': 'multipart/form-data; boundary=bnd', 'boundary': 'bnd', 'mutations': [], 'framing': 'length', 'fr_a': 0,
+                                     'fr_b': 1, 'chunks': [], 'B': B, 'access': ['files', 'forms'], 'pattern': [], 'method': 'POST', 'expect_parts': len(sparts)})
+        # ... and delivered in two reads cut at EVERY offset (the stream returns `cut` bytes, then the rest)
+        for cut in range(1, len(sbody)):
+            ctx.guarded(check_case, {'family': 'multipart', 'body': sbody, 'ctype': 'multipart/form-data; boundary=bnd', 'boundary': 'bnd', 'mutations': [], 'framing': 'length', 'fr_a': 0,
+                                     'fr_b': 1, 'chunks': [], 'B': 102400, 'access': ['files', 'forms'], 'pattern': [cut, 100000], 'method': 'POST', 'expect_parts': len(sparts)})
         ctx.count('buffer_sweep_grid')
         # the chunked framing of that form cut at EVERY wire offset (truncated transfer coding), read through three accessors
         wire_len = len(encode_chunked(body, [7])[0])
